@@ -283,6 +283,7 @@ fn history(family: &str, seed: u64, idx: usize, thorough: bool, out: &mut impl W
     let rounds = if thorough { c.rng.range(8, 30) } else { c.rng.range(4, 14) };
     match family {
         "ent" => {
+            let mut left: Vec<u32> = vec![];
             for _ in 0..rounds {
                 for _ in 0..c.rng.below(4) {
                     if c.live.is_empty() || c.rng.chance(3, 5) {
@@ -306,8 +307,17 @@ fn history(family: &str, seed: u64, idx: usize, thorough: bool, out: &mut impl W
                     let k = c.rng.range(1, 4);
                     c.lockstep(k);
                 }
+                // a client leaves the session in the middle of it
+                if c.nclients >= 2 && c.rng.chance(1, 12) {
+                    let who = c.rng.range(1, c.nclients as usize) as u32;
+                    if !left.contains(&who) {
+                        c.s.disconnect(who);
+                        left.push(who);
+                    }
+                }
                 c.random_steps();
             }
+            c.s.trace.push(json!({"ev":"left","peers":left}));
         }
         "comp" | "burst" => {
             // a few entities from random origins, then single-writer phases per key separated by drains
